@@ -9,7 +9,10 @@ def run(ctx):
     ctx.spec_must_hold(s)
     r = ctx.harness("c16", ["--vectors", s["out"], "--max", "600" if ctx.thorough else "120"], env={"VERIF_ROOT": ROOT}, timeout=3000)
     os.remove(s["out"])
+    import endpoint_job
+    ep = endpoint_job.run_endpoint(ctx)
     return ctx.finish("model_checking", {
+        "endpoint_composition": ep,
         "states": s["distinct"], "transitions": s["states"],
         "traces_validated_against_impl": r["evaluations"],
         "histories_generated_by_tlc": r["counters"].get("histories_total", 0),
